@@ -3071,7 +3071,9 @@ class Taylor(Output):
                 crmseLabel = "CRMSE"
                 minCrmseLabel = "Min CRMSE"
 
-            maxstd = max(maxstd, max(std))
+            # A slice with constant observations has no finite normalized standard deviation
+            if np.isfinite(std).any():
+                maxstd = max(maxstd, np.max(std[np.isfinite(std)]))
             ang = np.arccos(corr)
             x = std * np.cos(ang)
             y = std * np.sin(ang)
